@@ -170,4 +170,132 @@ example :
       some (2, st', m) ∧ 1 < m ∧ st'[1]? = some outer := by
   refine ⟨_, _, rfl, by decide, by decide⟩
 
+/-! ### RESUME label (1a4d83d): exactly the loops that enclose the label remain -/
+
+/-- RESUME label only ever removes frames from the top: what remains is an initial segment of the
+stack, whatever calls were in progress and whatever depth the label has; no call stays in progress -/
+theorem resume_label_prefix (s : MSt) (fd : Option Nat) :
+    ∃ n, (stepM s (.leave fd)).st = s.st.take n ∧ (stepM s (.leave fd)).marks = [] := by
+  unfold stepM
+  cases hm : s.marks.getLast? with
+  | none =>
+    cases fd with
+    | none => exact ⟨s.st.length, by simp, rfl⟩
+    | some d => exact ⟨_, rfl, rfl⟩
+  | some mg =>
+    obtain ⟨m, g⟩ := mg
+    cases fd with
+    | none => exact ⟨_, rfl, rfl⟩
+    | some d => exact ⟨_, List.take_take .., rfl⟩
+
+/-- RESUME label to a label enclosed by `d` FOR loops of the main module, from an error that
+happened anywhere below (any number of inner loops, any number of calls in progress, each call
+recorded above the label's loops: every mark exceeds `d`): the stack height is `d + 1` again and the
+frames of the `d` enclosing loops (and the module's own frame) are the ones that were there -/
+theorem resume_label_keeps_enclosing_loops (s : MSt) (d : Nat)
+    (hlen : d + 1 ≤ s.st.length) (hmarks : ∀ m ∈ s.marks, d + 1 ≤ m.1) :
+    (stepM s (.leave (some d))).st = s.st.take (d + 1) ∧
+    (stepM s (.leave (some d))).st.length = d + 1 := by
+  have key : (stepM s (.leave (some d))).st = s.st.take (d + 1) := by
+    unfold stepM
+    cases hm : s.marks.getLast? with
+    | none => simp only; rw [Nat.add_comm]
+    | some mg =>
+      obtain ⟨m, g⟩ := mg
+      simp only
+      have : d + 1 ≤ m := hmarks (m, g) (List.mem_of_getLast? hm)
+      rw [List.take_take, Nat.add_comm 1 d, Nat.min_eq_left this]
+  refine ⟨key, ?_⟩
+  rw [key, List.length_take]
+  omega
+
+/-- the defect repaired by 1a4d83d, on the model of the pinned behaviour (`fd = none`: no depth is
+known for the label): an error in the body of an inner FOR with RESUME label into the enclosing FOR's
+body leaves the inner frame on top, the enclosing loop goes on with the inner limit and step; with
+the label's depth the enclosing loop's own frame is on top again -/
+example :
+    let outer : Frame := ⟨0, 0, 2, 1⟩
+    let inner : Frame := ⟨0, 0, 3, 2⟩
+    (stepM ⟨[Frame.fresh, outer, inner], [], []⟩ (.leave none)).st.getLast? = some inner ∧
+    (stepM ⟨[Frame.fresh, outer, inner], [], []⟩ (.leave (some 1))).st.getLast? = some outer := by
+  decide
+
+/-- the hypotheses of `resume_label_keeps_enclosing_loops` are satisfiable: the error happened two
+calls deep (marks 3 and 4, innermost first), the label sits in the body of the outer loop -/
+example :
+    let outer : Frame := ⟨0, 0, 2, 1⟩
+    let inner : Frame := ⟨0, 0, 3, 2⟩
+    (stepM ⟨[Frame.fresh, outer, inner, Frame.fresh, Frame.fresh], [(4, 0), (3, 0)], []⟩
+      (.leave (some 1))).st = [Frame.fresh, outer] := by
+  decide
+
+/-! ### GOSUB / RETURN (8f09b9b): a RETURN from inside the routine's loops leaves them -/
+
+/-- the height never drops below `h` while `ops` run (the routine never pops a frame that was
+there when it was entered: the generator pops only what the routine's own FOR statements pushed) -/
+def StaysAbove (h : Nat) : List Frame → List Op → Prop
+  | _, [] => True
+  | st, o :: rest => h ≤ (apply st o).length ∧ StaysAbove h (apply st o) rest
+
+theorem ops_keep_below {h : Nat} : ∀ (ops : List Op) (st : List Frame), h ≤ st.length → StaysAbove h st ops →
+    h ≤ (applyOps st ops).length ∧ (applyOps st ops).take (h - 1) = st.take (h - 1) := by
+  intro ops
+  induction ops with
+  | nil => intro st hl _; exact ⟨hl, rfl⟩
+  | cons o rest ih =>
+    intro st hl hs
+    obtain ⟨h1, h2⟩ := hs
+    have := ih (apply st o) h1 h2
+    refine ⟨by simpa [applyOps] using this.1, ?_⟩
+    have e : (applyOps st (o :: rest)) = applyOps (apply st o) rest := rfl
+    rw [e, this.2]
+    cases h with
+    | zero => simp
+    | succ k =>
+      cases o with
+      | push => exact take_push _ (by omega)
+      | pop => exact take_dropLast (by simpa using hl)
+      | write f => exact take_write f (by simpa using hl)
+
+/-- **RETURN restores the caller's frames.**  GOSUB at a stack `st` (the caller may be inside any
+number of FOR bodies), then a routine that pushes and pops frames of its own in any way (FOR loops
+entered, completed, left by GOTO) but never pops the caller's, then RETURN from wherever the routine
+is — inside any number of its own FOR bodies: the stack has the caller's height again and every
+frame below the caller's top frame — in particular the limit and step of the FOR whose body issued
+the GOSUB — is what it was.  (The top frame itself is scratch between statements.) -/
+theorem return_restores_caller_frames (s : MSt) (ops : List Op) (hne : 1 ≤ s.st.length)
+    (hs : StaysAbove s.st.length s.st ops) :
+    let s' := stepM (runM (stepM s .gosub) (ops.map .op)) .gret
+    s'.st.length = s.st.length ∧ s'.st.take (s.st.length - 1) = s.st.take (s.st.length - 1) ∧
+    s'.gos = s.gos ∧ s'.marks = s.marks := by
+  have run : ∀ (ops : List Op) (t : MSt), runM t (ops.map .op) = { t with st := applyOps t.st ops } := by
+    intro ops
+    induction ops with
+    | nil => intro t; rfl
+    | cons o rest ih => intro t; simp only [List.map_cons, runM, List.foldl_cons]; exact ih _
+  obtain ⟨h1, h2⟩ := ops_keep_below ops s.st (Nat.le_refl _) hs
+  simp only [run, stepM]
+  refine ⟨?_, ?_, trivial, trivial⟩
+  · rw [List.length_take]; omega
+  · rw [List.take_take, Nat.min_eq_left (by omega)]; exact h2
+
+/-- the defect repaired by 8f09b9b, on the model: `FOR I (limit 3) : GOSUB R : NEXT` with
+`R: FOR J (limit 5) : RETURN`: without the recorded height the routine's two frames stay, the
+caller's NEXT (PopRegisters) then finds J's limit frame on top instead of I's; with it I's own
+limit frame is on top after the caller's NEXT -/
+example :
+    let iLimit : Frame := ⟨0, 0, 3, 1⟩
+    let jLimit : Frame := ⟨0, 0, 5, 1⟩
+    let atReturn : List Frame := [iLimit, jLimit, Frame.fresh]
+    (apply atReturn .pop).dropLast.getLast? = some iLimit ∧          -- pinned: NEXT pops J's body frame only
+    (apply atReturn .pop).getLast? = some jLimit ∧
+    (apply (stepM ⟨atReturn, [], [2]⟩ .gret).st .pop).getLast? = some iLimit := by
+  decide
+
+/-- the hypotheses of `return_restores_caller_frames` are satisfiable: the routine enters two FOR
+bodies and returns from the inner one -/
+example :
+    StaysAbove 2 [Frame.fresh, Frame.fresh] [.write id, .push, .write id, .push, .write id] := by
+  simp [StaysAbove, apply]
+
 end RbThm.C05
